@@ -18,6 +18,8 @@
 
   Core Lean only.
 -/
+import SvtVerif.CSem
+
 namespace Packetize
 
 /-- One frame as it reaches packetization, in decode order.  `disp` (picture_number, l.815) is only used by the
@@ -76,6 +78,11 @@ def insertByPts (b : Buf) : List Buf → List Buf
 def sortStack : List Buf → List Buf
   | [] => []
   | x :: xs => insertByPts x (sortStack xs)
+
+/-- `pts_descend` (l.331-337) as the code IS: `return (int)(bb->pts - ba->pts);` — the int64 difference converted to `int`
+    (qsort comparator: negative = `a` first).  `sortStack` above orders by the TRUE order of pts; `C03.pts_descend_agrees` /
+    `C03.pts_descend_truncates` state when the two agree and exhibit the disagreement. -/
+def ptsDescendC (aPts bPts : Int) : Int := CSem.wrapI32 (CSem.wrapI64 (bPts - aPts))
 
 /-! ### one temporal unit -/
 
